@@ -1,0 +1,41 @@
+//! Verification hooks (compiled only with `--cfg terohuttunen_proto_vulcan_verif`).
+//!
+//! A thread-local step counter with an optional budget. `StreamEngine::step` calls
+//! `on_step()` once per invocation, so the counter measures all search work. When the
+//! budget is exceeded, `on_step` unwinds with a `StepBudgetExhausted` payload which a
+//! verification harness can recognise after `catch_unwind`.
+use std::cell::Cell;
+
+/// Panic payload raised when the step budget of the current thread is exhausted.
+#[derive(Debug, Clone, Copy)]
+pub struct StepBudgetExhausted(pub u64);
+
+thread_local! {
+    static STEPS: Cell<u64> = Cell::new(0);
+    static BUDGET: Cell<u64> = Cell::new(u64::MAX);
+}
+
+/// Resets the step counter of the current thread and arms a new budget.
+pub fn reset(budget: u64) {
+    STEPS.with(|s| s.set(0));
+    BUDGET.with(|b| b.set(budget));
+}
+
+/// Number of engine steps taken on the current thread since the last `reset`.
+pub fn steps() -> u64 {
+    STEPS.with(|s| s.get())
+}
+
+#[inline]
+pub fn on_step() {
+    let n = STEPS.with(|s| {
+        let n = s.get() + 1;
+        s.set(n);
+        n
+    });
+    if n > BUDGET.with(|b| b.get()) {
+        // Disarm first so that unwinding cannot re-trigger the budget.
+        BUDGET.with(|b| b.set(u64::MAX));
+        std::panic::panic_any(StepBudgetExhausted(n));
+    }
+}
